@@ -16,7 +16,7 @@ RULE = (
     "Non-trivial = at least 2 actions visited at least twice each; distinct by sequence hash."
 )
 ASSUMPTIONS = ["the one undefined case of the rule - an improvement over a reference of exactly 0.0 (division by zero) - is not generated; zero and negative references with any other observation are"]
-REQUIRED_COUNTERS = {"alpha_zero_sequences": 50, "special_seed_sequences": 80, "env_resets_between_observations": 500, "zero_reference_steps": 200, "negative_reference_steps": 200, "twins_seeded_through_setter": 100, "learn_steps": 2000, "policy_calls": 2000, "reward_calls": 2000, "improving_steps": 200, "twin_pairs": 50}
+REQUIRED_COUNTERS = {"nan_observations": 300, "nan_reference_sequences": 50, "alpha_zero_sequences": 50, "special_seed_sequences": 80, "env_resets_between_observations": 500, "zero_reference_steps": 200, "negative_reference_steps": 200, "twins_seeded_through_setter": 100, "learn_steps": 2000, "policy_calls": 2000, "reward_calls": 2000, "improving_steps": 200, "twin_pairs": 50}
 SHARDS = {"quick": 8, "thorough": 16}
 
 
@@ -56,11 +56,14 @@ def one_sequence(rng, out):
         c["twins_seeded_through_setter"] = c.get("twins_seeded_through_setter", 0) + 1
     env = MABCalibrationEnv(n)
     best0 = float(10.0 ** rng.uniform(-3, 3))
-    mode = str(rng.choice(["random", "improving", "flat", "adversarial", "zero_reference", "negative"]))
+    mode = str(rng.choice(["random", "improving", "flat", "adversarial", "zero_reference", "negative", "nan_reference"]))
     if mode == "zero_reference":
         best0 = 0.0          # a perfect fit was reached: later observations cannot improve on it (losses are >= 0 here)
     elif mode == "negative":
         best0 = -best0       # e.g. a likelihood-type loss
+    elif mode == "nan_reference":
+        best0 = float("nan")  # the bootstrap batch had no finite loss: nothing ever compares as lower, rewards stay 0
+        c["nan_reference_sequences"] = c.get("nan_reference_sequences", 0) + 1
     env._curr_best_loss = best0
     ref_best = best0
     Q = [float(init)] * n
@@ -85,7 +88,7 @@ def one_sequence(rng, out):
             # a new session starts (RLScheduler._train resets the environment at the start of every session): the reference best stays
             env.reset()
             c["env_resets_between_observations"] = c.get("env_resets_between_observations", 0) + 1
-            if env._curr_best_loss != ref_best:
+            if env._curr_best_loss != ref_best and ref_best == ref_best:
                 return bad(f"after env.reset() the reference best is {env._curr_best_loss!r}, it was {ref_best!r}")
         # observation
         if mode == "zero_reference":
@@ -102,6 +105,9 @@ def one_sequence(rng, out):
             new = float(rng.choice([ref_best, np.nextafter(ref_best, 0), np.nextafter(ref_best, np.inf), ref_best * 0.5, ref_best * 2]))
         else:
             new = float(10.0 ** rng.uniform(-3, 3))
+        if rng.random() < 0.04:
+            new = float("nan")       # a batch whose best loss could not be evaluated: not an improvement (every comparison with NaN is false)
+            c["nan_observations"] = c.get("nan_observations", 0) + 1
         r = env.get_reward(np.zeros(1), new)
         c["reward_calls"] = c.get("reward_calls", 0) + 1
         direct = mode == "adversarial" and t % 3 == 2   # the agent's rule holds for any reward it is handed, not only the environment's
@@ -115,7 +121,7 @@ def one_sequence(rng, out):
         trace.append({"t": t, "action": int(a), "new_best": new, "reward": r})
         if not (abs(r_env - exp_r) <= 1e-15 * max(1.0, abs(exp_r))):
             return bad(f"reward {r!r}, rule gives {exp_r!r} (prev best, new best = {trace[-1]})")
-        if env._curr_best_loss != ref_best:
+        if env._curr_best_loss != ref_best and not (env._curr_best_loss != env._curr_best_loss and ref_best != ref_best):
             return bad(f"environment reference best {env._curr_best_loss!r}, rule gives {ref_best!r}")
         if direct:
             r = float(rng.choice([-1.0, -0.25, 0.0, 1.5, float(rng.normal() * 3)]))
